@@ -41,6 +41,29 @@ def mentions(t, sub):
     return False
 
 
+def _has_head(t, head):
+    if isinstance(t, tuple):
+        if t and t[0] == "app" and t[1] == head:
+            return True
+        return any(_has_head(x, head) for x in t if isinstance(x, tuple))
+    return False
+
+
+REORDERING = ("collect_into", "reversed", "sorted", "dedup")
+
+
+def seq_problems(term):
+    """fields of a constructed value whose sequence went through a collection / adaptor that does not keep the
+    order and multiplicity of its elements"""
+    out = []
+    if isinstance(term, tuple) and term and term[0] == "ctor":
+        for k, v in term[3]:
+            bad = [h for h in REORDERING if _has_head(v, h)]
+            if bad:
+                out.append("the sequence for `%s` passes through %s: order / multiplicity of its elements is not preserved" % (k, "/".join(bad)))
+    return out
+
+
 def strip_cast(t):
     while isinstance(t, tuple) and t and t[0] == "app" and t[1] == "cast":
         t = t[2][1]
@@ -445,4 +468,10 @@ def check_reader_variant(spec, variant, layouts):
                     problems.append("string bytes decoded as %s" % (d["elem_dec"],))
                 if not d["in_order"] or not d["forward"]:
                     problems.append("elements of `%s` are not stored in the order read" % wf)
+                ft = dict(L["term"][3]).get(wf)
+                if ft is not None:
+                    bad = [h for h in ("collect_into", "reversed", "sorted", "dedup") if _has_head(ft, h)]
+                    if bad:
+                        problems.append("the sequence read for `%s` passes through %s before it is stored: order / multiplicity of the elements in the file is not preserved" % (
+                            wf, "/".join(bad)))
     return sorted(set(problems))
